@@ -12,6 +12,7 @@
 package main
 
 import (
+	"sort"
 	"bufio"
 	"crypto/sha1"
 	"encoding/hex"
@@ -73,9 +74,38 @@ func parseCfg(h string) *cfg {
 		return c
 	}
 	c := parseCfgFresh(h)
+	// the option MAPS are shared by all configurations that spell them alike (e.g. a lint run and a normal run of one caller)
+	sk := fmt.Sprint(c.switches)
+	if m, ok := switchMaps[sk]; ok {
+		c.switches = m
+	} else {
+		switchMaps[sk] = c.switches
+	}
+	ak := ""
+	names := []string{}
+	for k := range c.autovars {
+		names = append(names, k)
+	}
+	sort.Strings(names)
+	for _, k := range names {
+		v := c.autovars[k]
+		pos := "-"
+		if v.VarNameArgPosition != nil {
+			pos = fmt.Sprint(*v.VarNameArgPosition)
+		}
+		ak += k + "=" + v.VarName + "/" + pos + ";"
+	}
+	if m, ok := autovarMaps[ak]; ok {
+		c.autovars = m
+	} else {
+		autovarMaps[ak] = c.autovars
+	}
 	cfgCache[h] = c
 	return c
 }
+
+var switchMaps = map[string]map[string]string{}
+var autovarMaps = map[string]map[string]parser.AutoVarCommand{}
 
 func parseCfgFresh(h string) *cfg {
 	c := &cfg{optimize: true, lm: true, switches: map[string]string{}, autovars: map[string]parser.AutoVarCommand{}}
@@ -193,6 +223,40 @@ func compileCase(f []string) string {
 		}
 		p = parser.New(lexer.New(src), cc, ff, c.deffont, c.maxlen, c.switches)
 	}
+	// every fourth input (by length) a second parser for the same input is created first and run to
+	// completion while the first one is alive: two parsers in one process must not disturb each other
+	twin := len(src)%4 == 1
+	var twinRes string
+	if twin {
+		var p2 *parser.Parser
+		if c.lint {
+			p2 = parser.NewLintParser(lexer.New(src), cc)
+		} else {
+			ff := fontFile(c.fonts)
+			if c.nofc {
+				ff = filepath.Join(workDir, "no_such_dir", "font_config.json")
+			}
+			p2 = parser.New(lexer.New(src), cc, ff, c.deffont, c.maxlen, c.switches)
+		}
+		twinRes = emitAll(p2, c, false)
+	}
+	if len(src)%4 == 3 {
+		// a decoy: another parser with a different configuration is created (and never used) before this one parses
+		dav := map[string]parser.AutoVarCommand{}
+		for k, v := range c.autovars {
+			dav[k] = parser.AutoVarCommand{VarName: v.VarName + "_DECOY", VarNameArgPosition: nil}
+		}
+		_ = parser.New(lexer.New("script Decoy { lock }"), parser.CommandConfig{AutoVarCommands: dav}, filepath.Join(workDir, "decoy_fonts.json"), "DECOY", 7, map[string]string{"V": "DECOY", "GAME": "DECOY"})
+	}
+	res := emitAll(p, c, len(src)%4 == 2)
+	if twin && twinRes != res {
+		return "TWINDIFF " + hx("a second parser alive at the same time changes the result: "+decodeForHumans(twinRes)+" | "+decodeForHumans(res))
+	}
+	return res
+}
+
+// emitAll parses and emits; with again it calls Emit() a second time on the same emitter, which must give the same text
+func emitAll(p *parser.Parser, c *cfg, again bool) string {
 	prog, err := p.ParseProgram()
 	if err != nil {
 		return errLine(err)
@@ -201,6 +265,12 @@ func compileCase(f []string) string {
 	out, err := e.Emit()
 	if err != nil {
 		return errLine(err)
+	}
+	if again {
+		out2, err2 := e.Emit()
+		if err2 != nil || out2 != out {
+			return "EMIT2DIFF " + hx("a second Emit() on the same emitter gives another result")
+		}
 	}
 	return "OK " + hx(out)
 }
